@@ -10,8 +10,9 @@
     ford/__init__.py  initialize / load_settings / parse_arguments
 
   Third-party parts are *inputs* of the model, not modelled: `tomllib` (the model
-  receives the parsed table), `argparse` (the model receives `vars(args)` without
-  the `None` entries), the preprocessor probe (stubbed in the harness).
+  receives the parsed table), `argparse` (the model receives the options given on
+  the command line and builds `vars(args)` from the regenerated (dest, action, default)
+  table, `cliNamespace`), the preprocessor probe (stubbed in the harness).
   Python type confusions that end in `TypeError`/`AttributeError` somewhere
   downstream are reported as `Err.unmodelled`; the harness does not compare those
   cases (they are all inside known-finding classes) and counts them.
@@ -334,6 +335,19 @@ def updateAll : List (Str × Str) → List (Str × Atom) → List (Str × Atom)
   | [], d => d
   | (k, v) :: r, d => updateAll r (aset k (.str v) d)
 
+/-- `{**INTRINSIC_MODS, **extra_mods}` (variant `repaired`, fixes/C15-extra-mods-user-entry-wins.diff):
+    the project's own entries are written over the built-in table -/
+def overlayMods : List (Str × Atom) → List (Str × Atom) → List (Str × Atom)
+  | [], d => d
+  | (k, v) :: r, d => overlayMods r (aset k v d)
+
+/-- the `extra_mods` line of `__post_init__`; `userWins = false` is the code as it is
+    (`extra_mods.update(INTRINSIC_MODS)`: the built-in URL replaces the project's, finding
+    C15-extra-mods-intrinsic-wins), `true` the repaired order -/
+def mergeMods (userWins : Bool) (intrinsic : List (Str × Str)) (mods : List (Str × Atom)) : List (Str × Atom) :=
+  if userWins then overlayMods mods (intrinsic.map (fun kv => (kv.1, .str kv.2)))
+  else updateAll intrinsic mods
+
 def markPairs : List (String × String) :=
   [("docmark", "predocmark"), ("docmark", "docmark_alt"), ("docmark", "predocmark_alt"),
    ("predocmark", "docmark_alt"), ("predocmark", "predocmark_alt"), ("docmark_alt", "predocmark_alt")]
@@ -359,8 +373,8 @@ def efts : List Atom → List (Str × Atom) → Option (List (Str × Atom))
   | .eft ft :: r, acc => efts r (aset ft.ext (.eft ft) acc)
   | _ :: _, _ => none
 
-def postInit (schema : List (Str × Tag × PyVal)) (intrinsic : List (Str × Str)) (s0 : Settings) :
-    Except Err Settings :=
+def postInit (schema : List (Str × Tag × PyVal)) (intrinsic : List (Str × Str)) (s0 : Settings)
+    (userWins : Bool := false) : Except Err Settings :=
   let s1 := aset "relative".toList (.atom (.bool (getD "project_url" s0 == .atom (.str [])))) s0
   match wrapAll schema s1 with
   | .error e => .error e
@@ -380,7 +394,7 @@ def postInit (schema : List (Str × Tag × PyVal)) (intrinsic : List (Str × Str
       let s := aset "display".toList (.list disp') s
       let s := aset "extensions".toList (.list (unionDedup exts fpp)) s
       let s := aset "exclude_dir".toList (.list (excl ++ outd)) s
-      let s := aset "extra_mods".toList (.dict (updateAll intrinsic mods)) s
+      let s := aset "extra_mods".toList (.dict (mergeMods userWins intrinsic mods)) s
       if markPairs.any (fun p => getD p.1 s == getD p.2 s && getD p.1 s != .atom (.str [])) then
         .error .docmarkClash
       else
@@ -397,11 +411,11 @@ def postInit (schema : List (Str × Tag × PyVal)) (intrinsic : List (Str × Str
   | _, _, _, _, _, _, _ => .error .unmodelled
 
 /-- `ProjectSettings(**kw)` -/
-def construct (schema : List (Str × Tag × PyVal)) (intrinsic : List (Str × Str)) (kw : Settings) :
-    Except Err Settings :=
+def construct (schema : List (Str × Tag × PyVal)) (intrinsic : List (Str × Str)) (kw : Settings)
+    (userWins : Bool := false) : Except Err Settings :=
   match overlay schema kw (defaults schema) with
   | .error e => .error e
-  | .ok s => postInit schema intrinsic s
+  | .ok s => postInit schema intrinsic s userWins
 
 /-! ### loaders -/
 
@@ -411,14 +425,14 @@ def mdRaw (mt : List (Str × List Str)) : Settings :=
 /-- `load_markdown_settings`: preprocess, convert, convert again inside
     `from_markdown_metadata`, construct. -/
 def loadMd (schema : List (Str × Tag × PyVal)) (seps : List (Str × Str)) (intrinsic : List (Str × Str))
-    (lines : List Str) : Except Err (Settings × List Str) :=
+    (lines : List Str) (userWins : Bool := false) : Except Err (Settings × List Str) :=
   match convertMeta schema seps (mdRaw (metaPre lines).1) with
   | .error e => .error e
   | .ok (kw, warns) =>
     match convertMeta schema seps kw with
     | .error e => .error e
     | .ok (kw2, _) =>
-      match construct schema intrinsic kw2 with
+      match construct schema intrinsic kw2 userWins with
       | .error e => .error e
       | .ok s => .ok (s, warns)
 
@@ -438,6 +452,21 @@ def applyCli (schema : List (Str × Tag × PyVal)) (seps : List (Str × Str)) :
       match convertSetting seps t k v with
       | .error e => .error e
       | .ok v' => applyCli schema seps rest (aset k v' s)
+
+/-- `vars(parser.parse_args())` without its `None` entries, which is what
+    `convert_types_from_commandarguments` acts on: argparse first sets every action's
+    `dest` to the action's `default` (declaration order), then the options given on the
+    command line (`given`) overwrite theirs.  An action whose default is not `None` is
+    therefore *always* in the namespace, given or not. -/
+def cliNamespace : List (Str × CliKind × Option PyVal) → Settings → Settings
+  | [], _ => []
+  | (dest, _, dflt) :: rest, given =>
+    match aget dest given with
+    | some v => (dest, v) :: cliNamespace rest given
+    | none =>
+      match dflt with
+      | some d => (dest, d) :: cliNamespace rest given
+      | none => cliNamespace rest given
 
 /-! ### `normalise_paths` -/
 
@@ -568,28 +597,35 @@ structure Tables where
   intrinsic : List (Str × Str)
   licenses : List (Str × Str)
   favicon : Str
+  cli : List (Str × CliKind × Option PyVal)
+  /-- variant switch: the project's `extra_mods` entries win over `INTRINSIC_MODS` (repaired) -/
+  modsUserWins : Bool := false
 
 def generatedTables : Tables :=
   { schema := Generated.settingsSchema, seps := Generated.optionSeparators,
     intrinsic := Generated.intrinsicMods, licenses := Generated.licenses,
-    favicon := Generated.faviconDefault }
+    favicon := Generated.faviconDefault, cli := Generated.cliTable }
+
+/-- the tables with the variant `repaired` of the `extra_mods` merge -/
+def generatedTablesModsRepaired : Tables := { generatedTables with modsUserWins := true }
 
 /-- `load_settings`: `[extra.ford]` of fpm.toml when present, else the metadata block -/
 def loadSettings (T : Tables) (toml : Option Settings) (md : List Str) : Except Err (Settings × List Str) :=
   match toml with
   | some kw =>
-    match construct T.schema T.intrinsic kw with
+    match construct T.schema T.intrinsic kw T.modsUserWins with
     | .ok s => .ok (s, [])
     | .error e => .error e
-  | none => loadMd T.schema T.seps T.intrinsic md
+  | none => loadMd T.schema T.seps T.intrinsic md T.modsUserWins
 
-/-- `parse_arguments` after `load_settings` -/
+/-- `parse_arguments` after `load_settings`; `cli` holds the options given on the command
+    line, the namespace FORD sees is `cliNamespace T.cli cli` -/
 def parseArguments (T : Tables) (dir pkg : Str) (config : Option Settings) (cli : Settings) (s : Settings) :
     Except Err Settings :=
   let s := match config with
     | some kw => applyConfig kw s
     | none => s
-  match applyCli T.schema T.seps cli s with
+  match applyCli T.schema T.seps (cliNamespace T.cli cli) s with
   | .error e => .error e
   | .ok s =>
     match normalisePaths T.schema T.favicon dir pkg s with
